@@ -291,11 +291,20 @@ func (x *Exec) appendOp(st *State, s, t Value, resT types.Type) Value {
 		var inPlace, moved *Term
 		if tn.IsLit() && tn.Val.Int64() <= 8 {
 			inPlace = srcS
-			moved = c.Fresh("append.new", ArraySort(IdxSort, lf.Sort))
-			// moved[i] = s[i] for i < len(s)
-			i := c.Var("q$a", IdxSort)
-			x.assume(st, c.Forall([]*Term{i}, c.Implies(c.And(c.BVCmp("bvsle", c.BVI(0, 64), i), c.BVCmp("bvslt", i, sn)),
-				c.Eq(c.Select(moved, i), c.Select(srcS, c.BVBin("bvadd", so, i)))), c.Select(moved, i)))
+			if x.Opt.Paths && sn.IsLit() && so.IsLit() && sn.Val.Int64() <= 1024 {
+				// concrete shape (path mode): the reallocated array is written out element by element,
+				// so later reads fold to the values stored
+				moved = c.ConstArray(ArraySort(IdxSort, lf.Sort), x.zeroLeaf(lf.Sort))
+				for e := int64(0); e < sn.Val.Int64(); e++ {
+					moved = c.Store(moved, c.BVI(e, 64), c.Select(srcS, c.BVBin("bvadd", so, c.BVI(e, 64))))
+				}
+			} else {
+				moved = c.Fresh("append.new", ArraySort(IdxSort, lf.Sort))
+				// moved[i] = s[i] for i < len(s)
+				i := c.Var("q$a", IdxSort)
+				x.assume(st, c.Forall([]*Term{i}, c.Implies(c.And(c.BVCmp("bvsle", c.BVI(0, 64), i), c.BVCmp("bvslt", i, sn)),
+					c.Eq(c.Select(moved, i), c.Select(srcS, c.BVBin("bvadd", so, i)))), c.Select(moved, i)))
+			}
 			for e := int64(0); e < tn.Val.Int64(); e++ {
 				ev := c.Select(srcT, c.BVBin("bvadd", to, c.BVI(e, 64)))
 				inPlace = c.Store(inPlace, c.BVBin("bvadd", c.BVBin("bvadd", so, sn), c.BVI(e, 64)), ev)
